@@ -562,6 +562,30 @@ def _divmod(a, b):
     return q, r
 
 
+class FnDef:
+    """a witness variable that is a FUNCTION of earlier bound variables (ceil / floor / trunc / sqrt inside a generic
+    loop iteration): v is determined by cons(v)"""
+    kind = "fdef"
+
+    def __init__(self, v, cons):
+        self.v, self.cons = v, cons
+
+    def range_cond(self):
+        return self.cons
+
+
+def _witness(prefix, sort_int, mk_cons):
+    """fresh witness with its defining constraint: global definition, or a functionally bound variable inside loops"""
+    c = cur()
+    v = fresh_int(prefix) if sort_int else fresh_real(prefix)
+    cons = mk_cons(v)
+    if c.binders:
+        c.binders.append(FnDef(v, cons))
+    else:
+        define(cons)
+    return v
+
+
 class DefBinder:
     """q, r := divmod(a, d): bound variables that are functions of earlier bound variables"""
     kind = "def"
@@ -619,9 +643,7 @@ def sym_sqrt(x):
     if key in memo:
         return memo[key][0]
     side_obligation("def:sqrt-nonneg", t >= 0)
-    s = fresh_real("sqrt")
-    define(s >= 0)
-    define(s * s == t)
+    s = _witness("sqrt", False, lambda v: z3.And(v >= 0, v * v == t))
     memo[key] = (Sym(s), ct)
     return Sym(s)
 
@@ -658,9 +680,7 @@ def sym_floor(x):
     key = ("floor", z3.simplify(t).get_id())
     if key in memo:
         return memo[key][0]
-    r = fresh_int("floor")
-    define(z3.ToReal(r) <= t)
-    define(t < z3.ToReal(r) + 1)
+    r = _witness("floor", True, lambda v: z3.And(z3.ToReal(v) <= t, t < z3.ToReal(v) + 1))
     memo[key] = (Sym(r), t)
     return Sym(r)
 
@@ -676,9 +696,7 @@ def sym_ceil(x):
     key = ("ceil", z3.simplify(t).get_id())
     if key in memo:
         return memo[key][0]
-    r = fresh_int("ceil")
-    define(z3.ToReal(r) - 1 < t)
-    define(t <= z3.ToReal(r))
+    r = _witness("ceil", True, lambda v: z3.And(z3.ToReal(v) - 1 < t, t <= z3.ToReal(v)))
     memo[key] = (Sym(r), t)
     return Sym(r)
 
@@ -694,9 +712,8 @@ def sym_trunc(x):
     key = ("trunc", z3.simplify(t).get_id())
     if key in memo:
         return memo[key][0]
-    r = fresh_int("trunc")
-    rr = z3.ToReal(r)
-    define(z3.If(t >= 0, z3.And(rr <= t, t < rr + 1), z3.And(rr >= t, t > rr - 1)))
+    r = _witness("trunc", True, lambda v: z3.If(t >= 0, z3.And(z3.ToReal(v) <= t, t < z3.ToReal(v) + 1),
+                                                   z3.And(z3.ToReal(v) >= t, t > z3.ToReal(v) - 1)))
     memo[key] = (Sym(r), t)
     return Sym(r)
 
